@@ -83,7 +83,8 @@ def removeTree (db : DB K V) (p : Path K) : DB K V :=
   db.filter (fun e => !(p.isPrefixOf e.1))
 
 /-! ### the public operations.  `p` is the path of the bucket the call is made on; a missing
-record at `p` means the handle is stale, which callers rule out (see `Handles`). -/
+record at `p` means the handle is stale, which callers rule out (the driver's handle table,
+`Driver/Hist.lean`, never lets such a call through). -/
 
 /-- `Bucket::put`: previous key/value pair if the key held a value -/
 def put (db : DB K V) (p : Path K) (k : K) (v : V) : Except Err (Option (K × V)) × DB K V :=
